@@ -8,6 +8,15 @@ import traceback
 from harness.common import MachineryError
 
 
+class WallLimit(BaseException):
+    """Raised in the check process by the wall-clock watchdog."""
+
+
+# wall-clock limits of one check (seconds): far above anything observed on the unchanged tree (quick checks take
+# 0.1 - 4 min, thorough ones up to 50 min on a loaded machine); override with VERIF_WALL_LIMIT
+WALL_LIMIT = {"quick": 3600, "thorough": 6 * 3600}
+
+
 def run_guarded(pid, tier, mod):
     """Run the check in a forked child so that a hard abort of compiled code (numba fatal error,
     segmentation fault) while executing the implementation on in-domain inputs is reported as a
@@ -23,10 +32,22 @@ def run_guarded(pid, tier, mod):
     if child == 0:
         rc = 2
         try:
+            def _expired(signum, frame):
+                raise WallLimit(f"no verdict after {limit} s")
+
+            limit = int(os.environ.get("VERIF_WALL_LIMIT") or WALL_LIMIT.get(tier, 3600))
+            signal.signal(signal.SIGALRM, _expired)
+            signal.alarm(limit)
             rc = mod.main(tier)
+            signal.alarm(0)
         except MachineryError as e:
             print(f"MACHINERY-FAILURE property={pid}: {e}", file=sys.stderr)
             rc = 2
+        except WallLimit as ex:
+            # interrupted INSIDE a library call (a frame of the pydrex package below the last harness frame): the
+            # implementation did not return on an in-domain input -> violation; anywhere else -> machinery failure
+            traceback.print_exc()
+            rc = _unexpected(pid, tier, ex, t0)
         except (KeyboardInterrupt, SystemExit, MemoryError):
             traceback.print_exc()
             print(f"MACHINERY-FAILURE property={pid}: interrupted / out of memory", file=sys.stderr)
@@ -73,12 +94,17 @@ def _unexpected(pid, tier, ex, t0):
     Anything else stays a machinery failure (exit 2)."""
     import time
 
-    tb = traceback.extract_tb(ex.__traceback__)
+    tb = [f for f in traceback.extract_tb(ex.__traceback__) if f.name != "_expired"]     # not the watchdog's own frame
     files = [f.filename for f in tb]
     last_harness = max((i for i, f in enumerate(files) if "/verif/harness/" in f), default=-1)
     in_pydrex = any("/pydrex/" in f for f in files[last_harness + 1:])
     data_kinds = (IndexError, TypeError, ValueError, KeyError, AttributeError, OverflowError, ZeroDivisionError, FloatingPointError, StopIteration)
-    if in_pydrex:
+    if isinstance(ex, WallLimit):
+        if not in_pydrex:
+            print(f"MACHINERY-FAILURE property={pid}: {ex} (not inside a library call)", file=sys.stderr)
+            return 2
+        clause = "implementation-did-not-return"
+    elif in_pydrex:
         clause = "implementation-raised"
     elif isinstance(ex, data_kinds) and last_harness >= 0:
         clause = "implementation-output-malformed"
